@@ -94,8 +94,16 @@ type Interp struct {
 	MergeIfs bool
 	// TrackBits: integer and boolean values also carry exact bit vectors (see bits.go).
 	TrackBits bool
-	indConds  map[string]*Cond
-	pdoms     map[*ssa.Function]map[*ssa.BasicBlock]*ssa.BasicBlock
+	// InlineCalls: package functions are interpreted in the caller's state instead of through summaries.
+	InlineCalls bool
+	// Oracle supplies the content of iterator fetches (layout composition); LinOfBits reads a bit vector as a
+	// linear form over the oracle's symbols.
+	Oracle    FetchOracle
+	LinOfBits func(st *State, v bitdom.Vec) (lin.Form, bool)
+	// DeadOps: positions of bit operations whose result is constant although their operand is not (rule A5).
+	DeadOps  map[token.Pos]string
+	indConds map[string]*Cond
+	pdoms    map[*ssa.Function]map[*ssa.BasicBlock]*ssa.BasicBlock
 	// AssumeNoTruncation: narrowing integer conversions keep their linear form (documented domain
 	// restriction "lengths fit their fields").
 	AssumeNoTruncation bool
@@ -250,6 +258,7 @@ type State struct {
 	sumStart       map[*ssa.BasicBlock]sumMark
 	loopIndex      map[ssa.Value]bool
 	Events         []Event
+	pfx            string                // call-frame prefix of names (InlineCalls)
 	Defs           map[string]bitdom.Vec // TrackBits: opaque symbol -> its bits (copy-on-write)
 	defsOwned      bool
 	noZeroTripFork bool
@@ -720,7 +729,7 @@ func (st *State) eval(v ssa.Value) Val {
 		return r
 	}
 	// value defined in a block not yet executed on this path (should not happen)
-	r := st.ip.symbolic(v.Type(), "%"+st.Fn.Name()+":"+v.Name(), st)
+	r := st.ip.symbolic(v.Type(), st.nm(v), st)
 	st.vals[v] = r
 	return r
 }
@@ -948,9 +957,36 @@ func (ip *Interp) Summarize(f *ssa.Function) *Summary {
 	for _, fv := range f.FreeVars {
 		st.eval(fv)
 	}
-	li := findLoops(f)
 	outs := map[string]*Outcome{}
 	var order []string
+	ip.explore(f, st, sum, func(st *State, x *ssa.Return, res []Val) {
+		o := st.makeOutcome(f, res)
+		if prev, ok := outs[o.key]; ok {
+			joinOutcome(prev, o, ip)
+		} else {
+			outs[o.key] = o
+			order = append(order, o.key)
+		}
+	})
+	sort.Strings(order)
+	for _, k := range order {
+		sum.Outcomes = append(sum.Outcomes, *outs[k])
+	}
+	if len(sum.Outcomes) > ip.MaxOut {
+		sum.Outcomes = widen(sum.Outcomes, ip, f)
+	}
+	sum.Reqs = dedupReqs(sum.Reqs)
+	if sum.Truncated {
+		ip.Diag = append(ip.Diag, fmt.Sprintf("%s: path budget exceeded (%d paths)", load.FuncName(f), sum.Paths))
+	}
+	ip.summaries[f] = sum
+	return sum
+}
+
+// explore runs the path-sensitive interpretation of f from the entry state st; onReturn is called at every
+// return reached (with the state at the return and the returned values).
+func (ip *Interp) explore(f *ssa.Function, st *State, sum *Summary, onReturn func(st *State, x *ssa.Return, res []Val)) {
+	li := findLoops(f)
 	var run func(st *State, b, from *ssa.BasicBlock)
 	var runFrom func(st *State, b *ssa.BasicBlock, start int)
 	branch := func(st *State, b *ssa.BasicBlock, x *ssa.If) {
@@ -1066,13 +1102,7 @@ func (ip *Interp) Summarize(f *ssa.Function) *Summary {
 				if traceOn {
 					fmt.Printf("TRACE %s return@%s res=%v path=[%s]\n", f.Name(), ip.P.Pos(x.Pos()), res, strings.Join(st.Trace, "; "))
 				}
-				o := st.makeOutcome(f, res)
-				if prev, ok := outs[o.key]; ok {
-					joinOutcome(prev, o, ip)
-				} else {
-					outs[o.key] = o
-					order = append(order, o.key)
-				}
+				onReturn(st, x, res)
 				return
 			case *ssa.Panic:
 				sum.Paths++
@@ -1194,19 +1224,6 @@ func (ip *Interp) Summarize(f *ssa.Function) *Summary {
 		runFrom(st, b, 0)
 	}
 	run(st, f.Blocks[0], nil)
-	sort.Strings(order)
-	for _, k := range order {
-		sum.Outcomes = append(sum.Outcomes, *outs[k])
-	}
-	if len(sum.Outcomes) > ip.MaxOut {
-		sum.Outcomes = widen(sum.Outcomes, ip, f)
-	}
-	sum.Reqs = dedupReqs(sum.Reqs)
-	if sum.Truncated {
-		ip.Diag = append(ip.Diag, fmt.Sprintf("%s: path budget exceeded (%d paths)", load.FuncName(f), sum.Paths))
-	}
-	ip.summaries[f] = sum
-	return sum
 }
 
 func dedupReqs(rs []Requirement) []Requirement {
@@ -2154,3 +2171,31 @@ func (ip *Interp) widenCounts(g *Outcome, outs []Outcome, e Tri) {
 		g.Mem[k] = IntVal(in.Add(lin.Sym(s).Scale(8)))
 	}
 }
+
+// FetchOracle supplies the abstract content of the bytes an iterator delivers.
+type FetchOracle interface {
+	// Byte returns the value of the byte at byte offset off of iterator it.
+	Byte(st *State, it *Obj, off lin.Form, sym string) (Val, bool)
+	// Bytes describes n bytes at offset off: a non-empty blob is the identity of a byte string that is exactly
+	// there; known reports whether the position could be resolved at all.
+	Bytes(st *State, it *Obj, off, n lin.Form) (blob string, known bool)
+}
+
+// Explore interprets f from a fresh entry state prepared by setup and calls onReturn at every return.
+func (ip *Interp) Explore(f *ssa.Function, setup func(st *State), onReturn func(st *State, res []Val)) *Summary {
+	sum := &Summary{Fn: f}
+	st := &State{ip: ip, Fn: f, mem: map[string]Val{}, zero: map[string]bool{}, vals: map[ssa.Value]Val{}, Preds: map[string]bool{},
+		pending: map[string]pendingAdv{}, loops: map[*ssa.BasicBlock]map[string]lin.Form{}, marks: map[string]int{}, loopMk: map[*ssa.BasicBlock]map[string]int{},
+		phaseB: map[*ssa.BasicBlock]bool{}, inA: map[*ssa.BasicBlock]bool{}, acc: map[*ssa.BasicBlock]*loopAcc{}, reqs: &sum.Reqs}
+	for _, p := range f.Params {
+		st.eval(p)
+	}
+	if setup != nil {
+		setup(st)
+	}
+	ip.explore(f, st, sum, func(es *State, x *ssa.Return, res []Val) { onReturn(es, res) })
+	return sum
+}
+
+// Outcome snapshots a return state as an outcome (for clients of Explore).
+func (st *State) Outcome(f *ssa.Function, res []Val) *Outcome { return st.makeOutcome(f, res) }
